@@ -1,5 +1,7 @@
 package main
 
+import "strings"
+
 func init() {
 	register("C06", propC06)
 }
@@ -11,6 +13,8 @@ func propC06(c *Ctx, r *Report) {
 		"that any folded value equals the run-time value (wrap-around, rounding, abstract-to-concrete conversion, operand order), that division by zero is diagnosed, sibling evaluators agreeing on implemented operators")
 	c.runEvaluators(r, "eval.default", "evaluators", nil, nil)
 	r.floor("evaluators", 10)
+	r.Clauses = append(r.Clauses, "numeric literal conversion (E10): no strconv conversion of a WGSL numeric literal in the lowerer discards its error (a literal that is not representable must be an error, not a saturated value)")
+	c.runErrflowFiltered(r, inPkgs("wgsl/internal/lower"), nil, func(callee string) bool { return strings.HasPrefix(callee, "strconv.") }, false)
 }
 
 // sums/enums whose members reach the backends exactly as the lowerer builds them
